@@ -350,14 +350,14 @@ def call_symbolic(I, c, a, cfg=None):
     fn = I.find(c.key)
     if c.invoke is not None:
         return c.invoke(I, fn, a, NS(cfg or {}))
-    return I.call(fn, [], dict(a.__dict__))
+    return I.call(fn, [], {k: v for k, v in a.__dict__.items() if not k.startswith("_cfg_")})
 
 
 def call_real(c, a, cfg=None):
     real = real_object(c.key)
     if c.invoke is not None:
         return c.invoke(None, real, a, NS(cfg or {}))
-    return real(**a.__dict__)
+    return real(**{k: v for k, v in a.__dict__.items() if not k.startswith("_cfg_")})
 
 
 def _to_goal(v):
@@ -376,11 +376,18 @@ def run_path(I, c, cfg, decisions):
     I.ctx = Ctx(decisions)
     I.extent_cap = c.extent_cap
     I.reset_state()
+    if "environ" in c.holder.__dict__:
+        env = c.holder.__dict__["environ"]
+        env = env.__func__ if isinstance(env, staticmethod) else env
+        I._environ.d = dict(env(cfg))
     b = SymB(I, cfg)
     records = []
     inp = c.inputs(b)
     a = NS(inp)
     old = NS(I.snapshot(inp))
+    for k, v in cfg.items():
+        setattr(a, "_cfg_" + k, v)
+        setattr(old, "_cfg_" + k, v)
     outcome = None
     try:
         result = call_symbolic(I, c, a, cfg)
@@ -501,7 +508,10 @@ def replay_concrete(c, cfg, model):
     except PreconditionFalse:
         return {"failed": [], "outcome": "precondition-false", "inexact": b.inexact}
     a = NS(inp)
-    old = NS(copy.deepcopy(inp))
+    old = NS(_safe_deepcopy(inp))
+    for k, v in cfg.items():
+        setattr(a, "_cfg_" + k, v)
+        setattr(old, "_cfg_" + k, v)
     failed = []
     detail = {}
     import warnings
@@ -545,6 +555,19 @@ def replay_concrete(c, cfg, model):
             if not matched and not (c.allow_raise and isinstance(e, tuple(c.allow_raise))):
                 failed.append(("no-unexpected-exception", f"{type(e).__name__}:{str(e)[:80]}"))
     return {"failed": failed, "outcome": (outcome[0], _describe(outcome[1])), "inexact": b.inexact, "detail": detail}
+
+
+def _safe_deepcopy(inp):
+    try:
+        return copy.deepcopy(inp)
+    except Exception:
+        out = {}
+        for k, v in inp.items():
+            try:
+                out[k] = copy.deepcopy(v)
+            except Exception:
+                out[k] = v          # singletons (the config object): the clause reads its value through obs
+        return out
 
 
 def _describe(v):
